@@ -1,5 +1,7 @@
 (* Executable judge for C19 correspondence cases: one request against one
-   generated frontend/dist tree. *)
+   generated file system (frontend/dist, canary files and directories outside
+   it, symbolic links anywhere).  The oracle never resolves a link: it looks
+   at the bytes of the real answer and at where regular files physically lie. *)
 From PV Require Import Base.Bytes Run.Verdict.
 From PV Require Export Models.Assets.   (* case terms mention Reg / Dir *)
 
@@ -7,8 +9,9 @@ Record case19 := {
   raw      : bytes;                 (* request target as sent (escaped path) *)
   origin   : option bytes;          (* Origin header; None = header absent *)
   wl       : list bytes;            (* Module.Whitelist *)
-  files    : list (bytes * node);   (* the generated tree: rooted path below frontend/dist -> node *)
-  canaries : list bytes;            (* contents of the files written OUTSIDE frontend/dist *)
+  files    : list (bytes * node);   (* the generated file system: clean rooted physical path below the
+                                       temporary root -> regular file | directory | symbolic link;
+                                       frontend/dist and the canary files outside it are all in here *)
   go_parsed    : bool;              (* http.ReadRequest accepted the request line *)
   go_ep        : bytes;             (* URL.EscapedPath() *)
   go_dec       : bytes;             (* URL.Path (decoded by net/url) *)
@@ -24,24 +27,47 @@ Record case19 := {
 Definition hdr_of (c : case19) : bytes :=
   match origin c with Some o => o | None => [] end.
 
-(* ---- the property itself on Go's own output, from S only (no use of M) *)
+(* ---- the property itself on Go's own output, from S only: no use of M and
+   no link resolution at all.  What may be served is decided by WHERE a
+   regular file physically lies, not by how a request gets there. *)
 
+(* the physical path of a node that lies below frontend/dist *)
+Definition phys_inside (p : bytes) : bool := prefixb (B "/frontend/dist/") p && inside p.
+
+Definition reg_content (e : bytes * node) : option bytes :=
+  match snd e with Reg b => Some b | _ => None end.
+
+Definition is_inside_file (c : case19) (body : bytes) : bool :=
+  existsb (fun e => match reg_content e with
+                    | Some b => beqb b body && phys_inside (fst e)
+                    | None => false
+                    end) (files c).
+
+(* the content of a regular file OUTSIDE dist (a canary) is in no answer, whatever the status *)
 Definition no_canary (c : case19) : bool :=
-  forallb (fun k => negb (nonemptyb k && containsb k (go_body c))) (canaries c).
+  forallb (fun e => match reg_content e with
+                    | Some k => phys_inside (fst e) || negb (nonemptyb k && containsb k (go_body c))
+                    | None => true
+                    end) (files c).
 
-(* a 200 body is exactly the content of a regular file whose path is inside
+(* a 200 body is exactly the content of a regular file that lies inside
    dist; any other answer contains the content of no file at all *)
 Definition content_ok (c : case19) : bool :=
   match go_class c with
-  | O => existsb (fun e => match snd e with
-                           | Reg b => beqb b (go_body c) && inside (fst e)
-                           | Dir => false
-                           end) (files c)
-  | _ => forallb (fun e => match snd e with
-                           | Reg b => negb (nonemptyb b && containsb b (go_body c))
-                           | Dir => true
+  | O => is_inside_file c (go_body c)
+  | _ => forallb (fun e => match reg_content e with
+                           | Some b => negb (nonemptyb b && containsb b (go_body c))
+                           | None => true
                            end) (files c)
   end.
+
+(* never a directory listing: a 200 answer is not net/http's HTML index of
+   entries (<pre> <a href=..>..</a> .. </pre>).  Implied by [content_ok];
+   kept as its own clause so that a replay names what went wrong. *)
+Definition no_listing_ok (c : case19) : bool :=
+  negb (Nat.eqb (go_class c) 0 &&
+        containsb (B "<pre>") (go_body c) && containsb (B "</pre>") (go_body c) &&
+        negb (is_inside_file c (go_body c))).
 
 (* the header is set only to the request's Origin and only when whitelisted *)
 Definition acao_ok (c : case19) : bool :=
@@ -51,7 +77,7 @@ Definition acao_ok (c : case19) : bool :=
               && Nat.eqb (go_acao_n c) 1
   end.
 
-Definition oracle19 (c : case19) : bool := no_canary c && content_ok c && acao_ok c.
+Definition oracle19 (c : case19) : bool := no_canary c && content_ok c && no_listing_ok c && acao_ok c.
 
 (* ---- agreement with M *)
 
@@ -86,13 +112,40 @@ Definition too_long (c : case19) : bool :=
   existsb (fun s => Nat.ltb 255 (length s)) (split_slash (go_dec c)) ||
   Nat.ltb 4000 (length (go_dec c)).
 
+(* the resolution climbs above the temporary root, which the tree does not describe *)
+Definition above_root (c : case19) : bool :=
+  match os_resolve (files c) (resolve (go_dec c)) with WAbove => true | _ => false end.
+
+(* F-C19-b, class 1 (listed in KNOWN_FINDINGS.txt): the request resolves,
+   through links that lie below dist, to a regular file that lies physically
+   OUTSIDE dist, the real handler answers 200 with exactly that file's bytes,
+   and everything else (mux, decoding, CORS) is as the model and the oracle
+   say.  [below_distb] on the resolved location is the exact per-request
+   complement of the property's domain (Models/Assets.v dom_C19 is the
+   sufficient condition on trees under which C19_only_file_bytes_partial is
+   proved). *)
+Definition escaped_file (c : case19) : option bytes :=
+  match os_resolve (files c) (resolve (go_dec c)) with
+  | WNode at_ (Reg b) => if below_distb at_ then None else Some b
+  | _ => None
+  end.
+
+Definition known_escape (c : case19) : bool :=
+  match escaped_file c with
+  | Some b => go_parsed c && Nat.eqb (go_class c) 0 && beqb b (go_body c) &&
+              agree19 c && acao_ok c && no_listing_ok c
+  | None => false
+  end.
+
 Definition judge (c : case19) : nat :=
-  if negb (oracle19 c) then v_violation
-  else if too_long c then v_unmodelled
+  if known_escape c then v_known 1
+  else if negb (oracle19 c) then v_violation
+  else if too_long c || above_root c then v_unmodelled
   else verdict true (oracle19 c) (agree19 c).
 
 (* diagnostic view used by replays *)
 Definition model_says (c : case19) :=
   (serve (files c) (raw c), mux_decide (raw c), pct_decode (raw c),
    acao_at (mux_decide (raw c)) (wl c) (hdr_of c),
-   (no_canary c, content_ok c, acao_ok c)).
+   os_resolve (files c) (resolve (go_dec c)),
+   (no_canary c, content_ok c, no_listing_ok c, acao_ok c)).
